@@ -190,6 +190,8 @@ impl Term {
                 // column is kept (LF is a pure line feed)
             }
             0x08 => self.col = self.col.saturating_sub(1),
+            // BEL rings, NUL is padding: neither changes what is displayed
+            0x07 | 0x00 => {}
             0x00..=0x1f | 0x7f => self.unsupported(format!("control 0x{b:02x}")),
             0x20..=0x7e => self.put(b as char),
             0x80..=0xbf => {
